@@ -5,7 +5,7 @@ import ast
 
 import z3
 
-from .values import (SliceView, AbsObj, AList, BoundMethod, Builtin, ClassRef, EnumObj, ExcClass, ExcVal, FuncRef, IterObj, Lambda,
+from .values import (ConcatView, SliceView, AbsObj, AList, BoundMethod, Builtin, ClassRef, EnumObj, ExcClass, ExcVal, FuncRef, IterObj, Lambda,
                      ModRef, NeedFork, NOTIMPL, Obj, Opt, OutsideSubset, RaiseEx, RangeObj, ReturnEx, SymObj, UNDEF,
                      ZipObj, fresh_name)
 
@@ -112,7 +112,8 @@ class ExprMixin:
         return e.value
 
     def ev_Tuple(self, e, fr):
-        return tuple(self.ev_elts(e.elts, fr, tuple))
+        r = self.ev_elts(e.elts, fr, tuple)
+        return r if isinstance(r, AList) else tuple(r)
 
     def ev_List(self, e, fr):
         return self.ev_elts(e.elts, fr, list)
@@ -329,9 +330,13 @@ class ExprMixin:
                 return a + b
             if isinstance(a, tuple) and isinstance(b, tuple):
                 return a + b
-            if isinstance(a, AList) or isinstance(b, AList):
-                shape = a.shape if isinstance(a, AList) else b.shape
-                return self.alist_concat(self.as_alist(a, shape), self.as_alist(b, shape))
+            if isinstance(a, (AList, SliceView)) or isinstance(b, (AList, SliceView)):
+                shape = a.shape if isinstance(a, (AList, SliceView)) else b.shape
+                if isinstance(a, (AList, SliceView)) and isinstance(b, (AList, SliceView)) and hasattr(shape, "sort") and shape.sort.kind() == z3.Z3_INT_SORT:
+                    return ConcatView(a, b)          # lists of ints: kept lazy (len / iteration / set() read through it)
+                a2 = self.materialize(a) if isinstance(a, SliceView) else self.as_alist(a, shape)
+                b2 = b if isinstance(b, (AList, SliceView)) else self.as_alist(b, shape)
+                return self.alist_concat(a2, b2)
         if t is ast.Mult and isinstance(a, list) and isinstance(b, int):
             return a * b
         if t is ast.Mult and isinstance(a, list) and z3.is_expr(b):
@@ -693,6 +698,10 @@ class ExprMixin:
             raise RaiseEx("TypeError", "not a container")
         if isinstance(container, IterObj):
             return self.contains(container.seq, item)
+        if self.theory is not None and hasattr(self.theory, "contains_other"):
+            r = self.theory.contains_other(self, container, item)
+            if r is not None:
+                return r
         raise OutsideSubset(f"`in` on {container!r}")
 
     def _bool_eq(self, x, y):
@@ -852,6 +861,10 @@ class ExprMixin:
             return z3.SubString(base, lo2, z3.If(hi2 - lo2 < 0, 0, hi2 - lo2))
         if isinstance(base, list) and (z3.is_expr(lo) or z3.is_expr(hi)) and self.theory is not None and hasattr(self.theory, "list_slice"):
             return self.theory.list_slice(self, base, lo, hi)
+        if self.theory is not None and hasattr(self.theory, "slice_other"):
+            r = self.theory.slice_other(self, base, lo, hi)
+            if r is not None:
+                return r
         raise OutsideSubset(f"slice of {base!r}")
 
     # ------------------------------------------------------------ comprehensions
